@@ -245,8 +245,8 @@ int __wrap_pthread_join(pthread_t t, void** r) {
   return __real_pthread_join(t, r);
 }
 static int malloc_noise = 0;
-void* __wrap_malloc(size_t n) { if (malloc_noise && (nrand() & 63) == 0) sched_yield(); return __real_malloc(n); }
-void* __wrap_calloc(size_t a, size_t b) { if (malloc_noise && (nrand() & 31) == 0) sched_yield(); return __real_calloc(a, b); }
+void* __wrap_malloc(size_t n) { if (malloc_noise && (nrand() & 255) == 0) sched_yield(); return __real_malloc(n); }
+void* __wrap_calloc(size_t a, size_t b) { if (malloc_noise && (nrand() & 127) == 0) sched_yield(); return __real_calloc(a, b); }
 
 /* ------------------------------------------------------------------------------------------- shared harness state */
 enum { PH_UNBORN, PH_READY, PH_RUNNING, PH_DONE };
@@ -841,7 +841,7 @@ int main(int argc, char** argv) {
   }
   for (int t = 0; t < MAXT; t++) { end_idx[t] = -1; last_pub[t] = 0; }
   for (size_t i = 0; i < nev; i++) if (ev[i].op == OP_PUB) last_pub[ev[i].tid] = ev[i].a;
-  signal(SIGALRM, on_alarm); alarm(getenv("THR_ALARM") ? atoi(getenv("THR_ALARM")) : 75);
+  signal(SIGALRM, on_alarm); alarm(getenv("THR_ALARM") ? atoi(getenv("THR_ALARM")) : 45);
   malloc_noise = free_mode && getenv("THR_NO_MALLOC_NOISE") == NULL;
 
   /* solo pre-pass: every workload of the file runs once, alone, in the main thread */
